@@ -79,6 +79,42 @@ def ref_bstr(fn, args):
     raise KeyError(fn)
 
 
+def ref_wrapper(fn, targs):
+    """the thin wrappers of bstr.c, stated independently: what each means for byte strings (a C-string argument = bytes up to the first NUL)"""
+    dec = lambda x: list(bytes.fromhex(x)) if x != "-" else []
+    cstr = lambda b: b[:b.index(0)] if 0 in b else b
+    if fn == "dup_ex":
+        a, o, l = dec(targs[0]), int(targs[1]), int(targs[2])
+        return hx(a[o:o + l])
+    a = dec(targs[0])
+    if len(targs) == 1:
+        if fn == "dup":
+            return "%s %d %d" % (hx(a), len(a), len(a))
+        if fn == "dup_c":
+            return hx(cstr(a))
+        if fn == "dup_lower":
+            return hx([c_tolower(c) for c in a])
+        if fn in ("memdup_to_c", "strdup_to_c"):
+            return hx([y for c in a for y in ((0x5c, 0x30) if c == 0 else (c,))])
+        if fn == "wrap_c":
+            return "%s %d" % (hx(cstr(a)), len(cstr(a)))
+        if fn == "wrap_mem":
+            return "%s %d refused" % (hx(a), len(a))
+        raise KeyError(fn)
+    b = dec(targs[1])
+    base = {"cmp": "cmp", "cmp_nocase": "cmp_nocase", "cmp_c": "cmp", "cmp_c_nocase": "cmp_nocase", "cmp_c_nocasenorzero": "cmp_nocasenorzero",
+            "util_cmp_mem": "cmp", "util_cmp_mem_nocase": "cmp_nocase", "begins_with": "begins_with", "begins_with_nocase": "begins_with_nocase",
+            "begins_with_c": "begins_with", "begins_with_c_nocase": "begins_with_nocase", "index_of": "index_of", "index_of_nocase": "index_of_nocase",
+            "index_of_c": "index_of", "index_of_c_nocase": "index_of_nocase", "index_of_c_nocasenorzero": "index_of_nocasenorzero",
+            "util_mem_index_of_c": "index_of", "util_mem_index_of_c_nocase": "index_of_nocase", "util_mem_index_of_mem": "index_of",
+            "util_mem_index_of_mem_nocase": "index_of_nocase", "add": "add", "add_c": "add"}
+    isc = fn.endswith("_c") or "_c_" in fn
+    bb = cstr(b) if isc else b
+    if fn in ("add_noex", "add_c_noex"):
+        return hx(a + bb[:3])
+    return ref_bstr(base[fn], [a, bb])
+
+
 def digit_val(c):
     if 48 <= c <= 57:
         return c - 48
@@ -246,6 +282,30 @@ def ref_line(state, line):
     dec = lambda s: list(bytes.fromhex(s)) if s != "-" else []
     if t[0] == "bstr":
         fn = t[1]
+        if fn == "w":
+            return ref_wrapper(t[2], t[3:])
+        if fn == "bb":
+            # the abstract type of the string builder: the list of pieces appended since the last clear
+            op = t[2]
+            if op == "new":
+                state["bb"] = []
+                return "ok"
+            bb = state["bb"]
+            if op in ("append", "appendn", "append_c"):
+                d = dec(t[3])
+                if op == "append_c" and 0 in d:
+                    d = d[:d.index(0)]
+                bb.append(d)
+                return "1 %d" % len(bb)
+            if op == "size":
+                return str(len(bb))
+            if op == "clear":
+                del bb[:]
+                return "0"
+            if op == "tostr":
+                r = [c for p in bb for c in p]
+                return "%s %d" % (hx(r), len(r))
+            raise KeyError(op)
         if fn == "add_noex":
             cap, a, b = int(t[2]), dec(t[3]), dec(t[4])
             return hx(a + b[:max(cap - len(a), 0)])
@@ -402,7 +462,47 @@ def bstr_lines(ctx):
             hb = hx(b)
             for f in FN2:
                 lines.append("bstr %s %s %s" % (f, ha, hb))
+    # the thin wrappers (bstr/bstr, bstr/C-string, bstr_util_*): exhaustive over shorter strings, then random
+    W2 = ["cmp", "cmp_nocase", "cmp_c", "cmp_c_nocase", "cmp_c_nocasenorzero", "util_cmp_mem", "util_cmp_mem_nocase", "begins_with", "begins_with_nocase",
+          "begins_with_c", "begins_with_c_nocase", "index_of", "index_of_nocase", "index_of_c", "index_of_c_nocase", "index_of_c_nocasenorzero",
+          "util_mem_index_of_c", "util_mem_index_of_c_nocase", "util_mem_index_of_mem", "util_mem_index_of_mem_nocase", "add", "add_c", "add_noex", "add_c_noex"]
+    W1 = ["dup", "dup_c", "dup_lower", "memdup_to_c", "strdup_to_c", "wrap_c", "wrap_mem"]
+    ws = strings_upto(ALPHA, 2 if ctx.tier == "quick" else 3)
+    for a in ws:
+        for f in W1:
+            lines.append("bstr w %s %s" % (f, hx(a)))
+        for o in range(len(a) + 1):
+            for l in range(len(a) - o + 1):
+                lines.append("bstr w dup_ex %s %d %d" % (hx(a), o, l))
+        for b in ws:
+            for f in W2:
+                lines.append("bstr w %s %s %s" % (f, hx(a), hx(b)))
     rng = ctx.rng
+    # string builder: random operation blocks (more than 16 pieces so that the piece list grows)
+    for _ in range(150 if ctx.tier == "quick" else 1500):
+        lines.append("bstr bb new")
+        for _ in range(rng.randint(0, 40)):
+            r = rng.random()
+            d = [rng.choice((rng.randrange(256), 0x61, 0x00)) for _ in range(rng.randint(0, 5))]
+            if r < 0.6:
+                lines.append("bstr bb %s %s" % (rng.choice(("append", "appendn", "append_c")), hx(d)))
+            elif r < 0.75:
+                lines.append("bstr bb size")
+            elif r < 0.95:
+                lines.append("bstr bb tostr")
+            else:
+                lines.append("bstr bb clear")
+        lines.append("bstr bb tostr")
+    for _ in range(6000 if ctx.tier == "quick" else 60000):
+        a = [rng.choice((rng.randrange(256), rng.choice(b"aAzZ@[`{ \t\r\n\x00"))) for _ in range(rng.randint(0, 12))]
+        if rng.random() < 0.6 and a:
+            i = rng.randrange(len(a)); j = rng.randint(i, len(a))
+            b = [c ^ (0x20 if rng.random() < 0.3 and (65 <= (c & ~0x20) <= 90) else 0) for c in a[i:j]]
+        else:
+            b = [rng.randrange(256) for _ in range(rng.randint(0, 4))]
+        lines.append("bstr w %s %s %s" % (rng.choice(W2), hx(a), hx(b)))
+        if rng.random() < 0.3:
+            lines.append("bstr w %s %s" % (rng.choice(W1), hx(a)))
     nr = 20000 if ctx.tier == "quick" else 200000
     for _ in range(nr):
         a = [rng.choice((rng.randrange(256), rng.choice(b"aAzZ@[`{ \t\r\n\x00"))) for _ in range(rng.randint(0, 12))]
@@ -466,7 +566,18 @@ def run(ctx, model_ok=True, proofs_broken=False):
     scripts = ring_scripts(ctx) + table_scripts(ctx)
     # stateless lines are grouped in scripts of one line (independent); pack 1 per script for shrinking purposes
     flat = bstr_lines(ctx) + num_lines(ctx)
-    scripts += [[l] for l in flat]
+    # builder operations are stateful: one script per block starting at "bstr bb new"
+    blocks, cur = [], None
+    rest = []
+    for l in flat:
+        if l == "bstr bb new":
+            cur = [l]; blocks.append(cur)
+        elif l.startswith("bstr bb "):
+            cur.append(l)
+        else:
+            rest.append(l)
+    scripts += blocks
+    scripts += [[l] for l in rest]
     corpus = lib.load_corpus("C17")
     scripts = corpus + scripts
     nlines, disagreements, c_outs, san = lib.corr_scripts(ctx, scripts, "prims") if model_ok else (0, [], None, [])
